@@ -339,10 +339,16 @@ ArrJoin(st, o, i, len, acc) ==
 (* Instantiating a function declaration evaluates a function expression: a polling  *)
 (* point.  An interrupt delivered there leaves the declarations made so far and      *)
 (* sets st.aborted (the callers turn it into the "interrupt" completion).             *)
+(* A pending interrupt is delivered at a polling point: the poll number st.abortAt (an     *)
+(* injection point chosen by count, C18), or the first polling point reached after the     *)
+(* host function H has been called st.abortLog times in this run (an interrupt SENT by the *)
+(* host during that call, OttoAPI: the usual asynchronous use of the Interrupt channel).   *)
+Aborts(st) == st.poll = st.abortAt \/ (st.abortLog > 0 /\ Len(st.log) >= st.abortLog)
+
 BindFns(st0, fds, i, env, cx, configurable) ==
     IF i > Len(fds) THEN st0
     ELSE LET st == [st0 EXCEPT !.poll = @ + 1] IN
-         IF st.poll = st.abortAt THEN [st EXCEPT !.aborted = TRUE]
+         IF Aborts(st) THEN [st EXCEPT !.aborted = TRUE]
     ELSE LET fd == fds[i]
              mk == MakeFunction(st, fd.params, fd.body, cx.lex, fd.name, cx.file)
              st1 == IF st.E[env].k = "decl"
@@ -824,7 +830,7 @@ ArrLitElems(els, i, cx, st, o) ==
 (* "interrupt" (no catch block sees it, no finally block runs).                         *)
 Eval(node, cx, st) ==
     LET st1 == [st EXCEPT !.poll = @ + 1]
-    IN  IF st1.poll = st.abortAt THEN Intr(st1) ELSE EvalBody(node, cx, st1)
+    IN  IF Aborts(st1) THEN Intr(st1) ELSE EvalBody(node, cx, st1)
 
 EvalBody(node, cx, st) ==
     CASE node.k = "num" -> Ok(st, NumV(node.v))
@@ -1075,7 +1081,7 @@ VarDecls(decls, i, cx, st) ==                    \* 12.2
 
 Exec(s, cx, st, labels) ==
     LET st1 == [st EXCEPT !.poll = @ + 1]
-    IN  IF st1.poll = st.abortAt THEN Comp(st1, "interrupt", Undef, <<>>) ELSE ExecBody(s, cx, st1, labels)
+    IN  IF Aborts(st1) THEN Comp(st1, "interrupt", Undef, <<>>) ELSE ExecBody(s, cx, st1, labels)
 
 ExecBody(s, cx, st, labels) ==
     CASE s.k = "empty" -> Normal(st, Empty)
@@ -1259,7 +1265,7 @@ Heap0 ==
 
 State0(fuel) ==
     [H |-> Heap0, E |-> <<[k |-> "obj", o |-> GlobalObj, withThis |-> FALSE, outer |-> 0]>>, log |-> <<>>, fuel |-> fuel,
-     poll |-> 0, abortAt |-> 0, aborted |-> FALSE, depth |-> 0, limit |-> 0,
+     poll |-> 0, abortAt |-> 0, abortLog |-> 0, aborted |-> FALSE, depth |-> 0, limit |-> 0,
      fr |-> <<UserFrame(<<>>, 1)>>, tlimit |-> 0, numproto |-> 0, hpanic |-> 0]
 
 GlobalCx == [lex |-> GlobalEnv, var |-> GlobalEnv, this |-> ObjV(GlobalObj), file |-> 1]
@@ -1285,9 +1291,12 @@ Outcome(c) ==
 RunProgram(body, fuel, isEval) == Outcome(RunBody(State0(fuel), body, GlobalCx, isEval))
 
 (* one API-level run on an existing runtime state (OttoAPI.tla): [st, out] *)
-RunOn(st, body, fuel, isEval, hpanic) ==
-    LET c == RunBody([st EXCEPT !.log = <<>>, !.fuel = fuel, !.hpanic = hpanic, !.abortAt = 0], body, GlobalCx, isEval)
-    IN  [st |-> [c.st EXCEPT !.hpanic = 0], out |-> Outcome(c)]
+(* alog > 0: an interrupt is sent during the alog-th call of H and delivered at the next  *)
+(* polling point.  The counters of a run (poll, log) are not part of the runtime at rest.  *)
+RunOnX(st, body, fuel, isEval, hpanic, alog) ==
+    LET c == RunBody([st EXCEPT !.log = <<>>, !.fuel = fuel, !.hpanic = hpanic, !.abortAt = 0, !.abortLog = alog, !.poll = 0], body, GlobalCx, isEval)
+    IN  [st |-> [c.st EXCEPT !.hpanic = 0, !.abortLog = 0, !.poll = 0, !.log = <<>>, !.fuel = fuel], out |-> Outcome(c)]
+RunOn(st, body, fuel, isEval, hpanic) == RunOnX(st, body, fuel, isEval, hpanic, 0)
 
 (* several programs one after the other on the same runtime (C17, C20): the outcomes *)
 RECURSIVE RunSeqFrom(_, _, _, _)
